@@ -8,13 +8,13 @@ PROP = dict(
     # the compared observable (all token spans and lexer diagnostics of a whole file) is more than the
     # property fixes; the property itself is checked on every diagnostic by the harness's oracle
     mismatch_is_violation=False,
-    rule="41 templates (21 + 20 for the diagnostic kinds the coverage report found unexecuted: annotation vs pattern, `%`/`%=` right operand, non-bool operand, clashes with builtin / prelude / host names, duplicate interface methods / output types / variants / fields / parameters, interface implemented for a non-generic instance, interface method without Self, #host+#foreign, foreign without ffi, struct pattern arity, `()` pattern, out-of-range literal pattern, unresolvable `use`), labels in the prelude file checked against the prelude text, and a hard probe for D93 (locals-limit diagnostic names line 3, not 0); one per diagnostic kind the generator can provoke (unrecognized token: ASCII, 2-byte and 4-byte character; "
+    rule="49 templates (21, + 8 for every postfix form — method call, call, index, `?`, `!`, member — on a PARENTHESISED operand, whose label must start at the `(`, + 20 for the diagnostic kinds the coverage report found unexecuted: annotation vs pattern, `%`/`%=` right operand, non-bool operand, clashes with builtin / prelude / host names, duplicate interface methods / output types / variants / fields / parameters, interface implemented for a non-generic instance, interface method without Self, #host+#foreign, foreign without ffi, struct pattern arity, `()` pattern, out-of-range literal pattern, unresolvable `use`), labels in the prelude file checked against the prelude text, and a hard probe for D93 (locals-limit diagnostic names line 3, not 0); one per diagnostic kind the generator can provoke (unrecognized token: ASCII, 2-byte and 4-byte character; "
          "unexpected token; integer literal out of range, plain and negated with `_`; unrecognized escape in `\"…\"`, `'…'`, after "
          "non-ASCII text, with a non-ASCII escaped character, in a triple-quoted literal, bad `\\x`; unresolved name; type conflict "
          "with annotation and between operands; empty parentheses; non-exhaustive match; redundant arm; assignment to an "
          "immutable binding; unresolved member function; unexpected end of file), each 14 (quick) / 150 (thorough) times behind "
          "0..4 random filler statements carrying non-ASCII text in strings, line comments, block comments and triple-quoted "
-         "literals, and in front of 0..2 more. Plus the end-of-input family: 34 truncations that end exactly where an identifier / expression / type / pattern is required (`fn`, `type`, `use`, `interface`, `implement`, `s.`, `use a/`, `fn f(x:`, `let a = 1 +`, `match x {` ...) x last character of the file in {ASCII, 2-byte, 3-byte, 4-byte} x 4 trailer styles (comment on the same line, glued comment, block+line comment, comment two lines below) x with/without trailing newline; every primary and secondary range within the file and on char boundaries, and a diagnostic lying behind the code must sit at the end of input or on the last character. Per program: every diagnostic of check_lsp(...).errors() — primary range and "
+         "literals, and in front of 0..2 more. Plus the end-of-input family: 34 truncations that end exactly where an identifier / expression / type / pattern is required (`fn`, `type`, `use`, `interface`, `implement`, `s.`, `use a/`, `fn f(x:`, `let a = 1 +`, `match x {` ...) x last character of the file in {ASCII, 2-byte, 3-byte, 4-byte} x 4 trailer styles (comment on the same line, glued comment, block+line comment, comment two lines below) x with/without trailing newline; every primary and secondary range within the file and on char boundaries, and a diagnostic lying behind the code must sit at the end of input or on the last character. Generic oracle on every label of every diagnostic (primary and secondary): its text has balanced (), [], {} (string literals skipped; single-token diagnostics excepted), i.e. it never starts or ends inside a bracket pair. Per program: every diagnostic of check_lsp(...).errors() — primary range and "
          "secondary labels — within the file and on char boundaries; the template's diagnostic covers exactly the offending "
          "text known to the generator; all token spans and lexer diagnostics vs the Lean lexer model (byte offsets). "
          "distinct = distinct program texts; non-trivial = non-ASCII text precedes the error site",
